@@ -50,6 +50,7 @@ fn main() {
         "fringe" => eng_fringe::run_fringe(&a),
         "mdd" => eng_mdd::run_mdd(&a),
         "seq" => eng_seq::run_seq(&a),
+        "seqorder" => eng_seq::run_seqorder(&a),
         "seqcut" => eng_seq::run_seqcut(&a),
         "par" => eng_par::run_par(&a),
         "parstress" => eng_par::run_parstress(&a),
